@@ -175,6 +175,15 @@ theorem from_opchains_all (chains : List (OpChain κ)) (L id : Int) (hwf : Chain
   exact ⟨g, h, from_opchains_consistent chains L id g h, from_opchains_length chains L id g hwf h,
     from_opchains_sem chains L id g h hwf.1 (fun c hc hc0 => (hwf.2.2 c hc hc0).1)⟩
 
+/-- non-vacuity of `from_opchains_all`, and an instance: two cancelling chains `±2 · op₁ ⊗ id` and `5 · op₃ ⊗ op₄` on two
+sites compile to a graph in which the word `[1, 0]` has coefficient `0` and `[3, 4]` has coefficient `5`. -/
+example : ∃ g : Graph Int,
+    fromOpchains [⟨[1], [0, 0], 2, 0⟩, ⟨[1], [0, 0], -2, 0⟩, ⟨[3, 4], [0, 1, 0], 5, 0⟩] 2 0 = .ok g ∧
+    g.isConsistent = true ∧ g.length = .ok 2 ∧ g.denF [1, 0] = 0 ∧ g.denF [3, 4] = 5 := by
+  obtain ⟨g, h1, h2, h3, h4⟩ := from_opchains_all
+    ([⟨[1], [0, 0], 2, 0⟩, ⟨[1], [0, 0], -2, 0⟩, ⟨[3, 4], [0, 1, 0], 5, 0⟩] : List (OpChain Int)) 2 0 (by decide)
+  exact ⟨g, h1, h2, h3, by rw [h4]; decide, by rw [h4]; decide⟩
+
 /-! ## `MPO.from_opgraph` -/
 
 /-- **Master theorem for `MPO.from_opgraph`.**  If the conversion of a consistent graph returns, there is a list
